@@ -1,5 +1,5 @@
 """C13 - bounded sinks: succeeds iff it fits, never overruns, sink-independent (DESIGN 5.13)."""
-from ..absint import Machine, State, Int, Adt, Atom, Slice, Ref, Abort
+from ..absint import Machine, State, Int, Adt, Atom, Slice, Ref, Abort, lin_add
 from .. import load, facts, mir, l1, prims, tables
 from ..prims import RESULT, norm_adt
 from . import c02
@@ -47,81 +47,70 @@ def root_of(body, local, depth=0):
 
 
 def slice_write(ctx, prog):
+    """T-SLICEWRITE: outcome table of `impl Write for &mut [u8]` over (capacity = len(*self), need = len(buf)), by abstract
+    interpretation (split_at*/copy_from_slice/mem::take are primitives with their std semantics):
+      need <= capacity  ->  Ok, exactly one copy of `buf` into the first `need` bytes, *self = the rest (capacity - need)
+      need >  capacity  ->  Err, nothing copied, *self unchanged (so a later, smaller write still succeeds)
+    and no path can panic.  The rule looks at what the function does, not at how it is written."""
     inst = prog.one(SLICE_WRITE)
     if inst is None:
         ctx.fail_closed('T-SLICEWRITE', SLICE_WRITE + ' not found')
         return
-    body = inst['body']
     where = mir.loc(inst['sp'])
-    cfg = mir.CFG(body)
-    lens = len_exprs(body)
-    # the capacity test: a switch on a comparison between len(*self) (arg 1) and len(buf) (arg 2)
-    guard = None
-    for bi, b in enumerate(body['blocks']):
-        t = b['t']
-        if t['k'] != 'switch':
+    m = Machine(prog, prims=prims.P)
+    st = State()
+    body = inst['body']
+    names = dict((l, n_) for l, n_ in body['names'])
+    args = [m.make_value(st, body['locals'][i], names.get(i, 'a%d' % i)) for i in range(1, body['argc'] + 1)]
+    try:
+        outs = m.run(inst, args, st)
+    except Abort as e:
+        ctx.fail_closed('T-SLICEWRITE', 'cannot be summarised: %s' % e)
+        return
+    cap, need = Int.sym('self*.len'), Int.sym('buf.len')
+    if 'self*.len' not in st.ranges or 'buf.len' not in st.ranges:
+        ctx.fail_closed('T-SLICEWRITE', 'argument lengths are not symbols of the analysis (%r)' % sorted(st.ranges))
+        return
+    for site, rec in m.assert_sites.items():
+        if rec['open'] or rec['fail']:
+            ctx.violation('T-SLICEWRITE', 'panic|' + rec['kind'], 'a write can panic (%s is not implied by the tests made before it): a too long write must be an error' % rec['kind'], mir.loc(rec.get('sp')) or where)
+    seen = {'fit': 0, 'nofit': 0}
+    for o in outs:
+        if o.kind != 'return':
+            ctx.violation('T-SLICEWRITE', 'diverge', 'write_all can diverge: %s' % o.why, where)
             continue
-        for s in b['s']:
-            if s['k'] == 'assign' and s['r'].get('rv') == 'bin' and s['r']['op'] in ('Lt', 'Le', 'Gt', 'Ge'):
-                la, lb = mir.op_local(s['r']['a']), mir.op_local(s['r']['b'])
-                if la in lens and lb in lens:
-                    ra, rb = root_of(body, lens[la][1]), root_of(body, lens[lb][1])
-                    guard = (bi, t, s['r']['op'], ra, rb)
-    if guard is None:
-        ctx.violation('T-SLICEWRITE', 'guard', 'no comparison of the remaining capacity with the length of the bytes offered: a write could be partial or out of bounds', where)
-        return
-    gb, gt, op, ra, rb = guard
-    # normalise to "cap < need"-style: which edge implies need <= cap, where cap = len(self)=arg1, need = len(buf)=arg2
-    if {ra, rb} != {1, 2}:
-        ctx.violation('T-SLICEWRITE', 'guard', 'the capacity test does not compare len(self) with len(buf)', where)
-        return
-    true_t = [v[1] for v in gt['vs'] if v[0] == 1]
-    false_t = [v[1] for v in gt['vs'] if v[0] == 0]
-    tt = true_t[0] if true_t else gt['o']
-    ft = false_t[0] if false_t else gt['o']
-    # relation holding when the comparison is true
-    if ra == 1:   # len(self) OP len(buf)
-        fits_on_true = op in ('Ge',)          # self >= buf
-        fits_on_false = op in ('Lt',)         # !(self < buf)
-        strict_gap = op in ('Gt', 'Le')       # self > buf (true) / !(self <= buf): demands one spare byte
-    else:         # len(buf) OP len(self)
-        fits_on_true = op in ('Le',)
-        fits_on_false = op in ('Gt',)
-        strict_gap = op in ('Lt', 'Ge')
-    if strict_gap:
-        ctx.violation('T-SLICEWRITE', 'exact-fit', 'the capacity test (%s) rejects a write that exactly fills the slice' % op, where)
-        return
-    fit_edge = tt if fits_on_true else ft
-    nofit_edge = ft if fits_on_true else tt
-    splits = [bi for bi, t in mir.iter_calls(body) if (mir.callee_path(t) or '').endswith('split_at_mut')]
-    copies = [bi for bi, t in mir.iter_calls(body) if (mir.callee_path(t) or '').endswith('copy_from_slice')]
-    if len(splits) != 1 or len(copies) != 1:
-        ctx.violation('T-SLICEWRITE', 'shape', 'expected one split_at_mut and one copy_from_slice, found %d / %d' % (len(splits), len(copies)), where)
-        return
-    if all(cfg.dominates(fit_edge, b_) for b_ in splits + copies) and fit_edge != gb:
-        ctx.ok('T-SLICEWRITE', 'split/copy dominated by the fitting edge')
-    else:
-        ctx.violation('T-SLICEWRITE', 'dominance', 'split_at_mut / copy_from_slice are not dominated by the edge on which len(buf) <= len(self): a too long write would panic or be partial', where)
-    # the non-fitting edge reaches a return without touching the slice
-    reach = cfg.reachable_from(nofit_edge)
-    if any(b_ in reach for b_ in splits + copies):
-        ctx.violation('T-SLICEWRITE', 'all-or-nothing', 'bytes are copied on the path where the write does not fit (partial write)', where)
-    else:
-        ctx.ok('T-SLICEWRITE', 'no copy on the non-fitting path')
-    # split point is exactly len(buf): the mid operand is a length of arg 2
-    st = body['blocks'][splits[0]]['t']
-    mid = mir.op_local(st['args'][1])
-    if mid in lens and root_of(body, lens[mid][1]) == 2:
-        ctx.ok('T-SLICEWRITE', 'split at len(buf)')
-    else:
-        ctx.violation('T-SLICEWRITE', 'split-point', 'the slice is not split at exactly len(buf)', where)
-    # copy source is buf
-    ct = body['blocks'][copies[0]]['t']
-    src = mir.op_local(ct['args'][1])
-    if root_of(body, src) == 2:
-        ctx.ok('T-SLICEWRITE', 'copy source is buf')
-    else:
-        ctx.violation('T-SLICEWRITE', 'copy-source', 'copy_from_slice does not copy the bytes offered', where)
+        fits = m.compare(o.st, 'Le', need, cap)
+        v = o.value
+        isok = isinstance(v, Adt) and norm_adt(v.adt) == RESULT and v.variant == 0
+        selfv = o.st.mem.get(('arg', 'self'))
+        copies = o.st.extra.get('copies', ())
+        if not (isinstance(fits, Int) and fits.is_const()):
+            ctx.violation('T-SLICEWRITE', 'undecided|' + ('ok' if isok else 'err'), 'a path returns %s without having established whether len(buf) <= len(self)' % ('Ok' if isok else 'Err'), where)
+            continue
+        if fits.c:
+            seen['fit'] += 1
+            if not isok:
+                ctx.violation('T-SLICEWRITE', 'exact-fit', 'a write that fits (len(buf) <= len(self)) is rejected', where)
+                continue
+            want_copy = (("'head(self**)'", repr(need), "'buf*'", repr(need)),)
+            if copies != want_copy:
+                ctx.violation('T-SLICEWRITE', 'copy', 'a fitting write copies %r; expected exactly the bytes offered into the first len(buf) bytes' % (copies,), where)
+            elif not (isinstance(selfv, Slice) and selfv.base is None and selfv.data == 'tail(self**)' and selfv.len == lin_add(cap, need, -1)):
+                ctx.violation('T-SLICEWRITE', 'rest', 'after a fitting write the slice is %r; expected the part behind the bytes written (len(self) - len(buf))' % (selfv,), where)
+            else:
+                ctx.ok('T-SLICEWRITE', 'fits -> Ok, one copy of buf, rest kept')
+        else:
+            seen['nofit'] += 1
+            if isok:
+                ctx.violation('T-SLICEWRITE', 'overrun', 'a write longer than the slice reports success', where)
+            elif copies:
+                ctx.violation('T-SLICEWRITE', 'all-or-nothing', 'bytes are copied (%r) although the write does not fit (partial write)' % (copies,), where)
+            elif not (isinstance(selfv, Slice) and selfv.data == 'self**' and selfv.len == cap):
+                ctx.violation('T-SLICEWRITE', 'consumed-on-error', 'a rejected write changes the slice to %r: the remaining capacity is lost, a later write that fits would be rejected' % (selfv,), where)
+            else:
+                ctx.ok('T-SLICEWRITE', 'does not fit -> Err, nothing copied, slice unchanged')
+    if not (seen['fit'] and seen['nofit']):
+        ctx.violation('T-SLICEWRITE', 'paths', 'expected a fitting and a non-fitting path (found %r)' % seen, where)
 
 
 def cursor_tables(ctx, prog):
@@ -194,6 +183,87 @@ def cursor_tables(ctx, prog):
     ctx.floor('T-CURSOR', 'cursor impls', n, 3 if has_alloc else 2)
 
 
+BUF = (('DATA', 'buf*', 'buf.len'),)
+
+
+def sink_forwarding(ctx, prog):
+    """T-SINK.all: every impl of encode::Write hands the *whole* buffer to an all-or-nothing operation of the
+    underlying sink exactly once before it reports success (a partial-write API whose count is dropped, a second
+    write, or a success path that writes nothing would make the bytes depend on the sink)."""
+    from ..absint import Fork, UNIT
+    from ..prims import ok, err
+
+    def io_all(m, cfg, f, args, t):
+        st = cfg.st
+        st.events.append(('SINK', 'all', l1.slice_bytes(m, st, args[1])))
+        return Fork([(None, ok(UNIT)), (None, err(Atom('ioerr')))])
+
+    def io_partial(kind):
+        def prim(m, cfg, f, args, t):
+            st = cfg.st
+            st.events.append(('SINK', kind, l1.slice_bytes(m, st, args[1]) if len(args) > 1 else ()))
+            n = m.new_sym(st, 'accepted%d' % len(st.events), 'usize')
+            return Fork([(None, ok(Int.sym(n))), (None, err(Atom('ioerr')))])
+        return prim
+
+    def vec_extend(m, cfg, f, args, t):
+        st = cfg.st
+        st.events.append(('SINK', 'all', l1.slice_bytes(m, st, args[1])))
+        return UNIT
+
+    ov = {l1.WRITE_ALL: l1.write_all_prim, 'std::io::Write::write_all': io_all, 'std::vec::Vec::<T, A>::extend_from_slice': vec_extend}
+    for meth in ('write', 'write_vectored', 'write_all_vectored', 'write_fmt'):
+        ov['std::io::Write::' + meth] = io_partial('std::io::Write::' + meth)
+    paths = sorted(set(i['path'] for i in prog.insts.values()
+                       if i['path'].endswith(' as minicbor::encode::write::Write>::write_all') and i['krate'] in ('minicbor',)))
+    n = 0
+    for path in paths:
+        if path == SLICE_WRITE:
+            continue          # the primitive sink itself: T-SLICEWRITE
+        inst = prog.one(path)
+        where = mir.loc(inst['sp'])
+        label = inst.get('impl_self') or path
+        m = Machine(prog, prims=prims.P, overrides=ov)
+        st = State()
+        body = inst['body']
+        names = dict((l, n_) for l, n_ in body['names'])
+        args = [m.make_value(st, body['locals'][i], names.get(i, 'a%d' % i)) for i in range(1, body['argc'] + 1)]
+        for sy in ('self*.1', 'buf.len'):
+            if sy in st.ranges:
+                st.ranges[sy] = ((0, 1 << 40),)
+        try:
+            outs = m.run(inst, args, st)
+        except Abort as e:
+            ctx.fail_closed('T-SINK.all', '%s cannot be summarised: %s' % (label, e))
+            continue
+        n += 1
+        okpaths = 0
+        for o in outs:
+            if o.kind != 'return':
+                continue      # divergence is F-PANIC.enc's business
+            v = o.value
+            isok = isinstance(v, Adt) and norm_adt(v.adt) == RESULT and v.variant == 0
+            offered = [e for e in o.st.events if e[0] in ('PUT', 'SINK')]
+            partial = [e for e in offered if e[0] == 'SINK' and e[1] != 'all']
+            if partial:
+                ctx.violation('T-SINK.all', label + '|partial', 'the sink is written through %s, which may accept only part of the bytes offered '
+                              '(the encoding would be cut short on a sink that makes short writes while success is reported)' % partial[0][1], where)
+                continue
+            if not isok:
+                ctx.ok('T-SINK.all', label + '|err', nontrivial=False)
+                continue
+            okpaths += 1
+            datas = [e[1] if e[0] == 'PUT' else e[2] for e in offered]
+            if datas == [BUF]:
+                ctx.ok('T-SINK.all', label + '|ok')
+            else:
+                ctx.violation('T-SINK.all', label + '|whole', 'success is reported after offering %r to the sink; expected the whole buffer exactly once' % (datas,), where)
+        if not okpaths and not any(k.startswith('T-SINK.all|' + label) for k, _, _ in ctx.violations):
+            ctx.violation('T-SINK.all', label + '|paths', 'no success path', where)
+    has_alloc = prog.feature('alloc') or prog.feature('std')
+    ctx.floor('T-SINK.all', 'forwarding Write impls', n, 2 + (2 if has_alloc else 0) + (1 if prog.feature('std') else 0))
+
+
 def is_encode_root(i):
     p = i['path']
     if i['krate'] != 'minicbor':
@@ -263,10 +333,12 @@ def run(ctx):
             ctx.ok('F-PUT.field', u, nontrivial=False)
         else:
             ctx.violation('F-PUT.field', u, 'accesses Encoder.writer directly')
-    ctx.rules_run.append('T-SLICEWRITE: impl Write for &mut [u8]: rejection exactly when len(self) < len(buf) dominates split/copy; split at len(buf); nothing copied on the rejecting path')
+    ctx.rules_run.append('T-SLICEWRITE: outcome table of impl Write for &mut [u8] over (len(self), len(buf)) by abstract interpretation: fits -> Ok + one copy of buf + rest kept; does not fit -> Err, nothing copied, slice unchanged; no panic')
     slice_write(ctx, prog)
     ctx.rules_run.append('T-CURSOR: the three Cursor impls advance the position by exactly len(buf) and only on success; the position has no other writer')
     cursor_tables(ctx, prog)
+    ctx.rules_run.append('T-SINK.all: every other Write impl (forwarding &mut W, Vec<u8>, the std::io adapter, cursors) hands the whole buffer to an all-or-nothing sink operation exactly once before reporting success; partial-write APIs are violations')
+    sink_forwarding(ctx, prog)
     ctx.rules_run.append('F-PANIC(encode): panic-site census over the encoding entry set; no unsafe in the write path')
     roots = [k for k, i in prog.insts.items() if is_encode_root(i)]
     reach0 = set(k for k in facts.reachable(prog, roots) if prog.get(k)['krate'] == 'minicbor')
